@@ -3,13 +3,16 @@
 package loadbalancer
 
 import (
+	"github.com/0xReLogic/Helios/internal/config"
 	verifclock "github.com/0xReLogic/Helios/internal/verifclock"
 	"fmt"
 	"math/rand"
 	"net"
 	"os"
 	"runtime"
+	"sort"
 	"strconv"
+	"strings"
 	"sync"
 	"sync/atomic"
 	"testing"
@@ -304,4 +307,97 @@ func TestVerifCleanupWindow(t *testing.T) {
 		}
 	}
 	fmt.Println("cleanup-window done")
+}
+
+// TestVerifTickShutdown: Shutdown arrives while the pool's OWN janitor goroutine (started by
+// NewWebSocketPool, woken by its real 30 s ticker) is in the middle of a pass — closing a stale
+// connection takes a moment. Shutdown must return, and every pooled connection must be closed. The test
+// has to wait for the real tick, so it is run only when a static fact about waiting under a lock no
+// longer holds (search for a concrete schedule), never on the routine path.
+func TestVerifTickShutdown(t *testing.T) {
+	p := NewWebSocketPool(8, 8, 20*time.Millisecond)
+	// one stale connection in each of several backends, all behind one gate: whichever backend the pass visits
+	// first, others are still to come when Shutdown arrives
+	entered, gate := make(chan struct{}, 8), make(chan struct{})
+	for i, b := range []string{"b", "c", "d", "e", "f"} {
+		p.Put(b, &gConn{id: i + 1, entered: entered, gate: gate})
+	}
+	verifclock.Advance(30 * time.Millisecond) // all stale for the next pass
+	select {
+	case <-entered:
+	case <-time.After(45 * time.Second):
+		close(gate)
+		t.Skip("the janitor goroutine made no pass within 45 s")
+	}
+	done := make(chan struct{})
+	go func() { p.Shutdown(); close(done) }()
+	time.Sleep(200 * time.Millisecond) // Shutdown is running or waiting now
+	close(gate)
+	select {
+	case <-done:
+	case <-time.After(5 * time.Second):
+		t.Fatalf("VERIF-POOL tick: Shutdown, called while the pool's own janitor goroutine was inside a pass, had not returned 5 s after the pass could go on (deadlock between Shutdown and the janitor)")
+	}
+	fmt.Println("tick-shutdown done")
+}
+
+// TestVerifListSnapshot: a listing that is in progress (held up at one backend whose lock a health transition owns)
+// while a removal completes. What the listing answers is a backend set that existed — the one before or the one after
+// the removal — for every strategy and every position of the removed backend.
+func TestVerifListSnapshot(t *testing.T) {
+	for _, strat := range []string{"round_robin", "least_connections", "weighted_round_robin", "ip_hash", "ip_hash_consistent"} {
+		for victim := 0; victim < 4; victim++ {
+			for hold := 0; hold < 4; hold++ {
+				if hold == victim {
+					continue
+				}
+				cfg := &config.Config{}
+				cfg.LoadBalancer.Strategy = strat
+				names := []string{"a", "b", "c", "d"}
+				for _, n := range names {
+					cfg.Backends = append(cfg.Backends, config.BackendConfig{Name: n, Address: "http://127.0.0.1:1", Weight: 1})
+				}
+				lb, err := NewLoadBalancer(cfg)
+				if err != nil {
+					t.Fatal(err)
+				}
+				var held *Backend
+				for _, b := range lb.strategy.GetBackends() {
+					if b.Name == names[hold] {
+						held = b
+					}
+				}
+				held.Mutex.Lock()
+				got := make(chan []BackendInfo, 1)
+				go func() { got <- lb.ListBackends() }()
+				time.Sleep(20 * time.Millisecond) // the listing has its snapshot and waits at the held backend
+				lb.RemoveBackend(names[victim])
+				held.Mutex.Unlock()
+				var infos []BackendInfo
+				select {
+				case infos = <-got:
+				case <-time.After(5 * time.Second):
+					t.Fatalf("VERIF-ADMIN %s: ListBackends did not return", strat)
+				}
+				var seen []string
+				for _, i := range infos {
+					seen = append(seen, i.Name)
+				}
+				sort.Strings(seen)
+				g := strings.Join(seen, ",")
+				var after []string
+				for i, n := range names {
+					if i != victim {
+						after = append(after, n)
+					}
+				}
+				if g != "a,b,c,d" && g != strings.Join(after, ",") {
+					t.Fatalf("VERIF-ADMIN %s: a listing overlapping remove(%s) answered {%s}: neither the set before the removal {a,b,c,d} nor the set after it {%s}",
+						strat, names[victim], g, strings.Join(after, ","))
+				}
+				lb.Stop()
+			}
+		}
+	}
+	fmt.Println("list-snapshot done")
 }
